@@ -178,19 +178,21 @@ type Ctx struct {
 }
 
 type exh struct {
-	p          *Prog
-	g          *Grammar
-	param      map[*ssa.Parameter]*AV // context-insensitive fixpoint
-	ctxMemo    map[string][]*Ctx
-	deadMemo   map[*ssa.Function]bool
-	getterOf   map[*ssa.Function]*types.Var // ast method → the field it returns
-	depthCap   int
-	callDepth  int                // nesting of module-callee evaluation (global recursion guard)
-	assumeNil  []ssa.Value        // values assumed nil while a phi edge is evaluated
-	assumeBool map[ssa.Value]bool // boolean results of inner calls fixed by the use site of the outer call
-	memo       map[evalKey]*AV
-	reachMemo  map[reachKey]map[*ssa.BasicBlock]bool
-	callMemo   map[callKey]*AV
+	nonNilMemo     map[nonNilKey]bool
+	convHelperMemo map[*ssa.Function]bool
+	p              *Prog
+	g              *Grammar
+	param          map[*ssa.Parameter]*AV // context-insensitive fixpoint
+	ctxMemo        map[string][]*Ctx
+	deadMemo       map[*ssa.Function]bool
+	getterOf       map[*ssa.Function]*types.Var // ast method → the field it returns
+	depthCap       int
+	callDepth      int                // nesting of module-callee evaluation (global recursion guard)
+	assumeNil      []ssa.Value        // values assumed nil while a phi edge is evaluated
+	assumeBool     map[ssa.Value]bool // boolean results of inner calls fixed by the use site of the outer call
+	memo           map[evalKey]*AV
+	reachMemo      map[reachKey]map[*ssa.BasicBlock]bool
+	callMemo       map[callKey]*AV
 }
 
 type callKey struct {
@@ -827,6 +829,80 @@ func (e *exh) evalCond(bo *ssa.BinOp, ctx *Ctx, at *ssa.BasicBlock, depth int) *
 	if bo.Op != token.EQL && bo.Op != token.NEQ {
 		return nil
 	}
+	// x == nil for an item or a node: decided by whether nil is among its
+	// dynamic types / shapes
+	if isNilConst(bo.Y) || isNilConst(bo.X) {
+		x := bo.X
+		if isNilConst(bo.X) {
+			x = bo.Y
+		}
+		if isNilConst(x) {
+			return nil
+		}
+		in := e.eval(x, ctx, at, depth+1)
+		in = e.refineAt(in, x, at, ctx)
+		if in == nil || in.Top {
+			return nil
+		}
+		var hasNil, hasOther bool
+		switch in.kind {
+		case "types":
+			if len(in.Types) == 0 {
+				return nil
+			}
+			for _, t := range in.Types {
+				if types.Identical(t, types.Typ[types.UntypedNil]) {
+					hasNil = true
+				} else {
+					hasOther = true
+				}
+			}
+		case "shapes":
+			if len(in.Shapes) == 0 {
+				return nil
+			}
+			for _, sh := range in.Shapes {
+				if sh.Nil {
+					hasNil = true
+				} else {
+					hasOther = true
+				}
+			}
+		default:
+			return nil
+		}
+		out := &AV{kind: "bool"}
+		if bo.Op == token.EQL {
+			out.BoolT, out.BoolF = hasNil, hasOther
+		} else {
+			out.BoolT, out.BoolF = hasOther, hasNil
+		}
+		return out
+	}
+	// the comparison of two truth values (`(a == nil) == (b == nil)`)
+	if e.kindOf(bo.X.Type()) == "bool" && e.kindOf(bo.Y.Type()) == "bool" {
+		l, r := e.eval(bo.X, ctx, at, depth+1), e.eval(bo.Y, ctx, at, depth+1)
+		if l == nil || r == nil || l.kind != "bool" || r.kind != "bool" || l.Top || r.Top || l.empty() || r.empty() {
+			return nil
+		}
+		out := &AV{kind: "bool"}
+		for _, lv := range []bool{false, true} {
+			if (lv && !l.BoolT) || (!lv && !l.BoolF) {
+				continue
+			}
+			for _, rv := range []bool{false, true} {
+				if (rv && !r.BoolT) || (!rv && !r.BoolF) {
+					continue
+				}
+				if (lv == rv) == (bo.Op == token.EQL) {
+					out.BoolT = true
+				} else {
+					out.BoolF = true
+				}
+			}
+		}
+		return out
+	}
 	k, ok := constInt(bo.Y)
 	if !ok {
 		return nil
@@ -1039,6 +1115,12 @@ func (e *exh) callResult1(c *ssa.Call, idx int, ctx *Ctx, at *ssa.BasicBlock, de
 			if !e.feasibleQuick(r.Instr.Block(), sub) {
 				continue
 			}
+			// a small plain function (a conversion or comparison helper): its
+			// returns are judged by reachability edge by edge, which sees the
+			// arms of a type switch with several types per case
+			if !isMethodOfExecutor(e.p, f) && len(f.Blocks) <= 40 && len(e.assumeNil) == 0 && len(e.assumeBool) == 0 && !e.feasible(r.Instr.Block(), sub) {
+				continue
+			}
 			if e.returnExcluded(c, r, facts) {
 				continue
 			}
@@ -1049,9 +1131,25 @@ func (e *exh) callResult1(c *ssa.Call, idx int, ctx *Ctx, at *ssa.BasicBlock, de
 			// `return g(…)`: what the use site knows about the sibling results
 			// of this call (ok == true, err == nil) holds for g's results too
 			var setBool []ssa.Value
+			var flagFacts []Fact
 			npush := 0
 			for i, sv := range r.Results {
 				ex := extractOf(c, i)
+				if ex != nil && i != idx && e.kindOf(sv.Type()) == "bool" {
+					// `return next, next != nil`: what the use site knows
+					// about the flag holds for the test it was computed from
+					if bo, ok := stripConv(sv).(*ssa.BinOp); ok {
+						truth, known := e.assumeBool[stripConv(ex)]
+						for _, f := range facts {
+							if sameValue(f.Cond, ex) {
+								truth, known = f.Truth, true
+							}
+						}
+						if known {
+							flagFacts = append(flagFacts, Fact{Cond: bo, Truth: truth})
+						}
+					}
+				}
 				inner, isEx := stripConv(sv).(*ssa.Extract)
 				if ex == nil || !isEx || i == idx {
 					continue
@@ -1087,7 +1185,7 @@ func (e *exh) callResult1(c *ssa.Call, idx int, ctx *Ctx, at *ssa.BasicBlock, de
 				}
 			}
 			rv := e.eval(r.Results[idx], sub, r.Instr.Block(), nd)
-			rv = e.refine(rv, r.Results[idx], realFacts(factsAt(r.Instr.Block())), sub, r.Instr.Block())
+			rv = e.refine(rv, r.Results[idx], append(realFacts(factsAt(r.Instr.Block())), flagFacts...), sub, r.Instr.Block())
 			for _, b := range setBool {
 				delete(e.assumeBool, b)
 			}
@@ -1214,6 +1312,175 @@ func (e *exh) definitelyNonNilErr(v ssa.Value, depth int) bool {
 		}
 	}
 	return false
+}
+
+// errMustBeNonNil: under ctx the error value v cannot be nil: it is
+// constructed, or every feasible return of the module function it comes from
+// (parameters bound to this call's arguments) answers such an error, or it is
+// a merge all of whose feasible ways in carry one.
+func (e *exh) errMustBeNonNil(v ssa.Value, ctx *Ctx, at *ssa.BasicBlock, depth int) bool {
+	if depth > 3 || v == nil {
+		return false
+	}
+	if e.definitelyNonNilErr(v, 0) {
+		return true
+	}
+	switch x := stripConvPlain(v).(type) {
+	case *ssa.Phi:
+		// worth the walk only when some way in carries a conversion helper's error
+		worth := false
+		for _, ev := range x.Edges {
+			if ex, ok := stripConvPlain(ev).(*ssa.Extract); ok {
+				if c, ok := ex.Tuple.(*ssa.Call); ok && !c.Call.IsInvoke() {
+					if sc := c.Call.StaticCallee(); sc != nil && inModule(sc) && sc.Blocks != nil && e.conversionHelper(sc, ex.Index) {
+						worth = true
+					}
+				}
+			}
+		}
+		if !worth {
+			return false
+		}
+		n := 0
+		for i, ev := range x.Edges {
+			pred := x.Block().Preds[i]
+			behindNil := !e.phiEdgeFeasible(x, i, ctx, depth)
+			if debugExh {
+				fmt.Fprintf(os.Stderr, "  phi %s edge %d from block %d behindNil=%v\n", x.Name(), i, pred.Index, behindNil)
+			}
+			if behindNil {
+				continue
+			}
+			n++
+			if !e.errMustBeNonNil(ev, ctx, pred, depth+1) {
+				if debugExh {
+					fmt.Fprintf(os.Stderr, "  phi %s edge %d may be nil\n", x.Name(), i)
+				}
+				return false
+			}
+		}
+		if debugExh {
+			fmt.Fprintf(os.Stderr, "  phi %s: %d ways in, all non-nil\n", x.Name(), n)
+		}
+		return n > 0
+	case *ssa.Extract:
+		c, ok := x.Tuple.(*ssa.Call)
+		if !ok || c.Call.IsInvoke() {
+			return false
+		}
+		sc := c.Call.StaticCallee()
+		if sc == nil || !inModule(sc) || sc.Blocks == nil {
+			return false
+		}
+		// only conversion helpers: plain functions of the module that take an
+		// item (`any`) and have a return with a constructed error; evaluation
+		// methods fail or not for reasons no type binding decides
+		if !e.conversionHelper(sc, x.Index) {
+			return false
+		}
+		sub := e.subCtx(c, sc, ctx)
+		sig := ""
+		for _, q := range sc.Params {
+			if av := sub.bind[q]; av != nil && (av.kind == "types" || av.kind == "ints" || av.kind == "bool") {
+				sig += q.Name() + "=" + av.String(e.p) + ";"
+			}
+		}
+		key := nonNilKey{sc, x.Index, sig}
+		if r, ok := e.nonNilMemo[key]; ok {
+			return r
+		}
+		if e.nonNilMemo == nil {
+			e.nonNilMemo = map[nonNilKey]bool{}
+		}
+		e.nonNilMemo[key] = false
+		n := 0
+		res := true
+		for _, r := range returnsOf(sc) {
+			if x.Index >= len(r.Results) || !e.feasible(r.Instr.Block(), sub) {
+				continue
+			}
+			n++
+			if !e.errMustBeNonNil(r.Results[x.Index], sub, r.Instr.Block(), depth+1) {
+				res = false
+				break
+			}
+		}
+		res = res && n > 0
+		if debugExh {
+			fmt.Fprintf(os.Stderr, "errMustBeNonNil %s #%d [%s] feasible returns=%d -> %v\n", fnName(sc), x.Index, sig, n, res)
+		}
+		e.nonNilMemo[key] = res
+		return res
+	}
+	return false
+}
+
+// phiEdgeFeasible: the i-th way into the merge can be taken under ctx: its
+// block is reachable, the branch is open, and it does not lie behind a test
+// that found nil an error which, under ctx, cannot be nil.
+func (e *exh) phiEdgeFeasible(x *ssa.Phi, i int, ctx *Ctx, depth int) bool {
+	pred := x.Block().Preds[i]
+	if !e.feasible(pred, ctx) || !e.edgeOK(pred, succIndex(pred, x.Block()), ctx) {
+		return false
+	}
+	// (feasible answers "yes" while it is being computed for this very
+	// function, so the dominating tests are looked at here as well)
+	for _, pf := range realFacts(edgeFacts(pred, succIndex(pred, x.Block()))) {
+		bo, ok := pf.Cond.(*ssa.BinOp)
+		if !ok || (bo.Op != token.EQL && bo.Op != token.NEQ) || (bo.Op == token.EQL) != pf.Truth {
+			continue
+		}
+		var y ssa.Value
+		switch {
+		case isNilConst(bo.Y):
+			y = bo.X
+		case isNilConst(bo.X):
+			y = bo.Y
+		}
+		if y != nil && y != ssa.Value(x) && y.Type() != nil && isErrorType(y.Type()) {
+			if _, isPhi := stripConvPlain(y).(*ssa.Phi); !isPhi && e.errMustBeNonNil(y, ctx, pred, depth+1) {
+				return false
+			}
+		}
+	}
+	return true
+}
+
+type nonNilKey struct {
+	fn  *ssa.Function
+	idx int
+	sig string
+}
+
+func (e *exh) conversionHelper(sc *ssa.Function, idx int) bool {
+	if r, ok := e.convHelperMemo[sc]; ok {
+		return r
+	}
+	if e.convHelperMemo == nil {
+		e.convHelperMemo = map[*ssa.Function]bool{}
+	}
+	res := false
+	if !isMethodOfExecutor(e.p, sc) && e.p.pairKind(sc.Signature) == "" && len(sc.Blocks) <= 60 {
+		takesItem := false
+		for _, q := range sc.Params {
+			if isContextType(q.Type()) {
+				takesItem = false
+				break
+			}
+			if it, ok := q.Type().Underlying().(*types.Interface); ok && it.NumMethods() == 0 {
+				takesItem = true
+			}
+		}
+		if takesItem {
+			for _, r := range returnsOf(sc) {
+				if idx < len(r.Results) && e.definitelyNonNilErr(r.Results[idx], 0) {
+					res = true
+				}
+			}
+		}
+	}
+	e.convHelperMemo[sc] = res
+	return res
 }
 
 // phiEdgeExcluded: edge i of phi cannot have been taken given the facts at
@@ -1567,6 +1834,17 @@ func (e *exh) feasibleQuick(b *ssa.BasicBlock, ctx *Ctx) bool {
 				return false
 			}
 		}
+		// a comparison whose truth the context settles
+		// (`(left == nil) == (right == nil)` with the operand types bound)
+		if bo, ok := f.Cond.(*ssa.BinOp); ok && ctx != nil && e.kindOf(bo.Type()) == "bool" {
+			if at := bo.Block(); at != nil {
+				if av := e.evalCond(bo, ctx, at, 0); av != nil && av.kind == "bool" && !av.Top && !av.empty() {
+					if (f.Truth && !av.BoolT) || (!f.Truth && !av.BoolF) {
+						return false
+					}
+				}
+			}
+		}
 	}
 	return true
 }
@@ -1585,6 +1863,29 @@ func (e *exh) edgeOK(p *ssa.BasicBlock, si int, ctx *Ctx) bool {
 	f := Fact{Cond: iff.Cond, Truth: si == 0}
 	if e.nilTestContradiction([]Fact{f}) {
 		return false
+	}
+	// the same with the call context: `v, err := convert(value)` answers an
+	// error for every value of the types bound here
+	for _, cf := range realFacts(appendFact(nil, f, 0)) {
+		bo, ok := cf.Cond.(*ssa.BinOp)
+		if !ok || (bo.Op != token.EQL && bo.Op != token.NEQ) {
+			continue
+		}
+		var x ssa.Value
+		switch {
+		case isNilConst(bo.Y):
+			x = bo.X
+		case isNilConst(bo.X):
+			x = bo.Y
+		default:
+			continue
+		}
+		if x.Type() == nil || !isErrorType(x.Type()) {
+			continue
+		}
+		if (bo.Op == token.EQL) == cf.Truth && ctx != nil && e.errMustBeNonNil(x, ctx, p, 0) {
+			return false
+		}
 	}
 	for _, subj := range factSubjects(f) {
 		k := e.kindOf(subj.Type())
